@@ -1,7 +1,7 @@
 (* Corr.v — comparison of model outputs with the implementation's observables,
    evaluated by vm_compute from generated case files (definitions only). *)
 From Coq Require Import ZArith List Bool Lia.
-From Dendro Require Import Base Tree Grid Criteria Compute Index Prune PruneGhost Newick IO DEq Cache Plot Moments Stats Catalog Flux.
+From Dendro Require Import Base Tree Grid Criteria Compute Index Prune PruneGhost Newick IO DEq Cache Plot Moments Stats Catalog Flux Viewer.
 Import ListNotations.
 Open Scope Z_scope.
 
@@ -155,3 +155,15 @@ Definition flux_view (r : Flux.res) : Z * ((Z * Z) * (Z * Z)) :=
   | Flux.Ok v => (0, (Plot.qpair (Flux.sc v), (Flux.spi v, Flux.sln v)))
   | Flux.Err e => (err_code e, ((0, 1), (0, 0)))
   end.
+
+(* ---- viewer (C19): final state after a sequence of events, per slot 1..3:
+        (lines, (contour ids, slice), label, scatter rows), None encoded by the flag 0 *)
+Definition optl (o : option (list Z)) : Z * list Z := match o with Some l => (1, l) | None => (0, []) end.
+Definition art_view (a : Viewer.artifacts) :=
+  (optl (Viewer.a_lines a),
+   (match Viewer.a_contour a with Some (ids, k) => (1, (ids, k)) | None => (0, ([], 0)) end,
+    (optl (Viewer.a_label a), optl (Viewer.a_scatter a)))).
+Definition viewer_view (f : list tree) (views : list Z) (slice : Z) (es : list Viewer.event) :=
+  let st := Viewer.run f views slice es in
+  (map (fun j => art_view (Viewer.aget (Viewer.v_art st) j Viewer.no_artifacts)) [1; 2; 3],
+   (Viewer.v_slice st, zlen (Viewer.v_notified st))).
